@@ -48,6 +48,13 @@ fn gen_field(w: &World, lo: u64, hi: u64, first_col: bool) -> String {
         }
         _ => string_from(w, field_chars(), lo, hi),
     };
+    if w.wild.get() && w.chance(1, 5) {
+        // tabs and line feeds inside a field: representable only through csv quoting
+        let at = w.draw(s.chars().count() as u64 + 1) as usize;
+        let byte_at = s.char_indices().nth(at).map(|(i, _)| i).unwrap_or(s.len());
+        s.insert_str(byte_at, *w.pick(&["\t", "\n", "\r\n", "\n#", "\t\t"]));
+        w.probe("field_with_tab_or_line_feed");
+    }
     if first_col && s.starts_with('#') {
         // a first column starting with '#' *is* a comment line in BED/GFF: outside the domain
         s.insert(0, 'c');
@@ -685,12 +692,20 @@ fn judge_roundtrip<T>(
 }
 
 fn roundtrip(w: &W, fmt: Fmt) -> Verdict {
+    // 1 run in 12: fields may contain tabs and line feeds (then no comment lines are inserted,
+    // because the image can no longer be split into record lines by the harness)
+    w.wild.set(w.chance(1, 12));
     let wl = gen_workload(w, fmt)?;
+    w.wild.set(false);
+    let wild = match fmt {
+        Fmt::Bed => wl.bed.iter().any(|b| b.chrom.contains(['\t', '\n']) || b.aux.iter().any(|a| a.contains(['\t', '\n']))),
+        Fmt::Gff(_) => wl.gff.iter().any(|g| [&g.seqname, &g.source, &g.feature, &g.score, &g.strand].iter().any(|f| f.contains(['\t', '\n']))),
+    };
     let (wio, rio, eintr_on) = draw_faults(w);
     let written = producer_phase(w, &wl, wio)?;
     // storage: identity or comment lines inserted at line boundaries
     let mut img = written.clone();
-    let with_comments = w.chance(1, 3);
+    let with_comments = !wild && w.chance(1, 3);
     if with_comments {
         let lines = lines_of(&written);
         let mut out = vec![];
@@ -1100,7 +1115,7 @@ pub fn property() -> Property {
         ],
         expected_probes: &[
             "multi_valued_attribute", "key_order_differs_from_insertion", "quoted_csv_field", "csv_field_or_line_split_across_reads",
-            "damage_bad_number", "damage_bad_phase", "damage_phase_in_u8_range", "damage_column_missing", "damage_column_added", "eintr_surfaced_by_reader", "many_records_regime", "many_values_record", "records_iterator_restarted", "damaged_line_follows_comment", "damaged_last_line_without_newline",
+            "damage_bad_number", "damage_bad_phase", "damage_phase_in_u8_range", "damage_column_missing", "damage_column_added", "eintr_surfaced_by_reader", "many_records_regime", "field_with_tab_or_line_feed", "many_values_record", "records_iterator_restarted", "damaged_line_follows_comment", "damaged_last_line_without_newline",
         ],
         quick_runs: 300_000,
         thorough_runs: 20_000_000,
